@@ -1,1 +1,188 @@
-// harnesses for may_queue/src/spsc.rs (child module, cfg(kani) only)
+// C03 (spsc half): harnesses over the real may_queue/src/spsc.rs (child module, cfg(kani) only).
+//
+// Real code: Queue::{new, alloc_node (inner_cache), push, pop, peek, len, is_empty},
+// BlockNode::{new, set, get, peek}.  Under cfg(kani) the block size constant is 4 slots instead of
+// 32 (same code, retargeted constant): block boundaries, block recycling through
+// first / last_head and the second boundary are reached with a handful of operations.
+use super::*;
+use crate::verif_shim::{np, sa};
+
+static mut Q: *const Queue<u8> = std::ptr::null();
+static mut MAXD: usize = 1;
+static mut PUSH_LEFT: usize = 0;
+static mut PUSHED: u8 = 0; // pushes started (= value of the last push)
+static mut PUSH_DONE: u8 = 0;
+static mut POP_LEFT: usize = 0; // whole pops that may still be nested into the producer
+static mut POPPED: u8 = 0;
+static mut IN_POP: bool = false;
+static mut IN_PUSH: bool = false;
+
+fn producer_push() {
+    unsafe {
+        PUSHED += 1;
+        IN_PUSH = true;
+        (*Q).push(PUSHED);
+        IN_PUSH = false;
+        PUSH_DONE += 1;
+    }
+}
+/// one whole pop with the single-consumer FIFO linearizability oracle
+fn consumer_pop() {
+    unsafe {
+        let done_at_start = PUSH_DONE;
+        IN_POP = true;
+        let r = (*Q).pop();
+        IN_POP = false;
+        match r {
+            None => assert!(done_at_start <= POPPED, "C03: pop returned None although a completed push was unconsumed"),
+            Some(v) => {
+                assert!(v == POPPED + 1, "C03: pop returned a value out of order, twice, or never pushed");
+                assert!(v <= PUSHED, "C03: pop returned a value whose push has not started");
+                POPPED += 1;
+            }
+        }
+    }
+}
+fn hook() {
+    unsafe {
+        if np::DEPTH < MAXD {
+            if PUSH_LEFT > 0 && !IN_PUSH && kani::any() {
+                PUSH_LEFT -= 1;
+                np::nested(producer_push);
+            }
+            if np::DEPTH < MAXD && POP_LEFT > 0 && !IN_POP && kani::any() {
+                POP_LEFT -= 1;
+                np::nested(consumer_pop);
+            }
+        }
+    }
+}
+fn spin_prune() {
+    kani::assume(false);
+}
+/// move the empty queue to slot offset `s` with s push/pop pairs (values are renumbered after)
+fn shifted_queue(s: usize) -> Queue<u8> {
+    let q: Queue<u8> = Queue::new();
+    let mut i = 0;
+    while i < s {
+        q.push(0);
+        assert!(q.pop() == Some(0));
+        i += 1;
+    }
+    q
+}
+
+/// sequential histories: a solver-chosen sequence of 9 push/pop operations from a solver-chosen
+/// offset, against the reference FIFO (values are sequence numbers); crosses two block boundaries
+/// and recycles a block
+#[kani::proof]
+#[kani::unwind(10)]
+fn c03_spsc_seq_fifo() {
+    let s: usize = kani::any();
+    kani::assume(s < BLOCK_SIZE);
+    let q = shifted_queue(s);
+    unsafe { Q = &q };
+    let mut i = 0;
+    while i < 9 {
+        if kani::any() {
+            producer_push();
+        } else {
+            consumer_pop();
+        }
+        unsafe {
+            assert!(q.len() == (PUSHED - POPPED) as usize, "C03: len() disagrees with the history");
+            assert!(q.is_empty() == (PUSHED == POPPED));
+            if PUSHED > POPPED {
+                assert!(q.peek() == Some(&(POPPED + 1)));
+            }
+        }
+        i += 1;
+    }
+    unsafe {
+        kani::cover!(PUSHED == 9, "nine pushes: two block boundaries crossed");
+        kani::cover!(PUSHED >= 5 && POPPED >= 4, "pops crossed a block boundary while pushes continued");
+    }
+    std::mem::forget(q);
+}
+
+macro_rules! np_harness {
+    ($(#[$m:meta])* fn $name:ident() $body:block) => {
+        #[kani::proof]
+        $(#[$m])*
+        #[kani::stub(core::sync::atomic::Atomic::<*mut T>::load, sa::ptr_load)]
+        #[kani::stub(core::sync::atomic::Atomic::<*mut T>::store, sa::ptr_store)]
+        #[kani::stub(core::sync::atomic::Atomic::<usize>::load, sa::usize_load)]
+        #[kani::stub(core::sync::atomic::Atomic::<usize>::store, sa::usize_store)]
+        #[kani::stub(std::hint::spin_loop, spin_prune)]
+        fn $name() $body
+    };
+}
+
+/// consumer root: three pops; up to five pushes land at any atomic step of the pops
+fn consumer_root(depth: usize) {
+    let s: usize = kani::any();
+    kani::assume(s < BLOCK_SIZE);
+    let q = shifted_queue(s);
+    unsafe {
+        Q = &q;
+        MAXD = depth;
+        PUSH_LEFT = 5;
+        np::HOOK = Some(hook);
+    }
+    consumer_pop();
+    hook();
+    consumer_pop();
+    hook();
+    consumer_pop();
+    unsafe {
+        np::HOOK = None;
+        while PUSH_LEFT > 0 {
+            PUSH_LEFT -= 1;
+            producer_push();
+        }
+        let mut i = 0;
+        while i < 5 {
+            consumer_pop();
+            i += 1;
+        }
+        assert!(POPPED == 5, "C03: a pushed value was never delivered");
+        assert!((*Q).pop().is_none());
+        kani::cover!(np::PREEMPTS >= 2, "two pushes landed inside pops");
+    }
+    std::mem::forget(q);
+}
+np_harness! { #[kani::unwind(7)] fn c03_spsc_np_consumer_root_d1() { consumer_root(1) } }
+np_harness! { #[kani::unwind(7)] fn c03_spsc_np_consumer_root_d2() { consumer_root(2) } }
+
+/// producer root: five pushes (one block boundary, node allocation / recycling); the consumer's
+/// whole pops land at any atomic step of the pushes
+fn producer_root(depth: usize) {
+    let s: usize = kani::any();
+    kani::assume(s < BLOCK_SIZE);
+    let q = shifted_queue(s);
+    unsafe {
+        Q = &q;
+        MAXD = depth;
+        POP_LEFT = 4;
+        np::HOOK = Some(hook);
+    }
+    let mut i = 0;
+    while i < 5 {
+        producer_push();
+        hook();
+        i += 1;
+    }
+    unsafe {
+        np::HOOK = None;
+        let mut i = 0;
+        while i < 6 {
+            consumer_pop();
+            i += 1;
+        }
+        assert!(POPPED == 5, "C03: a pushed value was never delivered");
+        kani::cover!(np::PREEMPTS >= 2, "two pops landed inside pushes");
+    }
+    std::mem::forget(q);
+}
+np_harness! { #[kani::unwind(7)] fn c03_spsc_np_producer_root_d1() { producer_root(1) } }
+np_harness! { #[kani::unwind(7)] fn c03_spsc_np_producer_root_d2() { producer_root(2) } }
